@@ -1597,13 +1597,13 @@ func shrink(w *world, c Case, fp string) Case {
 			x.Payer, x.Mode, x.Kind, x.PSigs, x.PSigsOver = "", "none", kDefault, []string{}, nil
 			try(x)
 		}
-		for i := range c.Sigs {
+		for i := 0; i < len(c.Sigs); i++ { // try may have replaced c by a smaller case
 			x := c
 			x.Sigs = append(append([]string{}, c.Sigs[:i]...), c.Sigs[i+1:]...)
 			x.Canon = false
 			try(x)
 		}
-		for i := range c.PSigs {
+		for i := 0; i < len(c.PSigs); i++ {
 			x := c
 			x.PSigs = append(append([]string{}, c.PSigs[:i]...), c.PSigs[i+1:]...)
 			x.Canon = false
